@@ -24,12 +24,12 @@ import (
 type opKind int
 
 const (
-	opUcNo opKind = iota // client UpdateKeys{RequestPeerUpdate:false}
-	opUcReq              // client UpdateKeys{RequestPeerUpdate:true}
-	opUsNo               // server UpdateKeys{false}
-	opUsReq              // server UpdateKeys{true}
-	opWc                 // client Write(distinct payload)
-	opWs                 // server Write(distinct payload)
+	opUcNo  opKind = iota // client UpdateKeys{RequestPeerUpdate:false}
+	opUcReq               // client UpdateKeys{RequestPeerUpdate:true}
+	opUsNo                // server UpdateKeys{false}
+	opUsReq               // server UpdateKeys{true}
+	opWc                  // client Write(distinct payload)
+	opWs                  // server Write(distinct payload)
 	numOps
 )
 
@@ -56,10 +56,10 @@ func opsString(ops []opKind) string {
 type injKind int
 
 const (
-	injNext  injKind = iota // sealed under generation authorised+1 (queueable future epoch)
-	injNext2                // sealed under generation authorised+2 (beyond the queueable future epoch)
-	injOld                  // sealed under every generation older than the authorised one, each sent twice
-	injLegacy               // junk (no keys) in DTLSPlaintext framing naming the receiver's current and next epoch, far-ahead sequence numbers
+	injNext   injKind = iota // sealed under generation authorised+1 (queueable future epoch)
+	injNext2                 // sealed under generation authorised+2 (beyond the queueable future epoch)
+	injOld                   // sealed under every generation older than the authorised one, each sent twice
+	injLegacy                // junk (no keys) in DTLSPlaintext framing naming the receiver's current and next epoch, far-ahead sequence numbers
 )
 
 var injNames = [...]string{"next", "next2", "old", "legacy"}
@@ -77,6 +77,9 @@ type scen struct {
 	Mask   world.Mask // fault indices are relative to the start of the data phase
 	Replay bool       // after quiescence a byte copy of every data-phase datagram is delivered once more
 	Inj    *inject    // forged record (requires Gap == -1 and an empty mask)
+	// TicketDrop k > 0: the k-th datagram the server emits from the moment its handshake call returns (its
+	// NewSessionTicket, fragmented when the MTU is small) is lost once; retransmissions are delivered
+	TicketDrop int
 }
 
 func (s scen) id() string {
@@ -89,6 +92,9 @@ func (s scen) id() string {
 	}
 	if s.Inj != nil {
 		id += fmt.Sprintf("/forge-%s@%d->%s", injNames[s.Inj.Kind], s.Inj.At, s.Inj.To)
+	}
+	if s.TicketDrop > 0 {
+		id += fmt.Sprintf("/ticket-datagram-%d-lost", s.TicketDrop)
 	}
 	return id
 }
@@ -505,7 +511,38 @@ func (x *exec) setup(p *world.PKI) error {
 	}
 	x.pr = pr
 	n0 := world.NewNet(x.w, world.ClientAddr, nil)
-	if err := n0.Pump(30*time.Second, pr.BothDone); err != nil || !pr.BothOK() {
+	if x.sc.TicketDrop > 0 {
+		_ = n0.Pump(30*time.Second, func() bool { return pr.S.HS.Done() })
+		// what the server emits at that moment under the application traffic keys (unified header, epoch
+		// bits 3): its acknowledgement of the client's Finished and the NewSessionTicket fragments
+		var app []int
+		for _, d := range x.w.InFlight() {
+			if d.Src == world.ServerAddr && len(d.Data) > 0 && d.Data[0]&0xe0 == 0x20 && d.Data[0]&0x03 == 3 {
+				app = append(app, d.Dir)
+			}
+		}
+		if x.sc.TicketDrop > len(app) {
+			return fmt.Errorf("skip: only %d datagrams of the application epoch in flight", len(app))
+		}
+		first := app[0]
+		for _, v := range app {
+			if v < first {
+				first = v
+			}
+		}
+		n0.AddFault(false, app[x.sc.TicketDrop-1], world.ActDrop)
+		_ = first
+		if x.w.Verbose {
+			for _, d := range x.w.InFlight() {
+				x.w.Logf("ticketdrop: in flight #%d dir=%d %s -> %s %s", d.ID, d.Dir, d.Src, d.Dst, world.Describe(d.Data))
+			}
+			x.w.Logf("ticketdrop: dropping server datagram index %d", app[x.sc.TicketDrop-1])
+		}
+	}
+	if err := n0.Pump(30*time.Second, pr.BothDone); x.sc.TicketDrop > 0 && (err != nil || !pr.BothOK()) {
+		// completion of the handshake under loss is C02's subject (its known finding: a lost final ACK)
+		return fmt.Errorf("skip: the handshake did not complete with that datagram lost")
+	} else if err != nil || !pr.BothOK() {
 		return fmt.Errorf("handshake failed: pump=%v client=%v server=%v", err, pr.C.HS, pr.S.HS)
 	}
 	for round := 0; ; round++ {
